@@ -78,6 +78,9 @@ def lit_of(draw, fam, cfg, typed_ok=True):
     return ["lit", enc(v)]
 
 
+NARY = [1, 2, 2, 3, 3, 4, 5, 6]  # argument counts of n-ary operators (SQLite splits >= 4 recursively)
+
+
 class ExprGen:
     def __init__(self, draw, scope: Scope, cfg: Cfg):
         self.draw = draw
@@ -196,16 +199,16 @@ class ExprGen:
         if o == "fill":
             return ["fn", "fill_null", [g(fam), g(fam)], {}]
         if o == "coalesce":
-            k = d(st.integers(1, 3))
+            k = d(st.sampled_from(NARY))
             args = [g(fam) for _ in range(k)]
             if cfg.null_lits and self.chance(2):
                 args.insert(d(st.integers(1, len(args))), ["lit", None])
             return ["fn", "coalesce", args, {}]
         if o == "hminmax":
-            k = d(st.integers(1, 3))
+            k = d(st.sampled_from(NARY))
             return ["fn", self.pick(["hmax", "hmin"]), [g(fam) for _ in range(k)], {}]
         if o == "hsum":
-            k = d(st.integers(1, 3))
+            k = d(st.sampled_from(NARY))
             return ["fn", "hsum", [g(fam) for _ in range(k)], {}]
         if o == "clip":
             lo, hi = sorted([d(data.value_of(fam)), d(data.value_of(fam))])
@@ -264,7 +267,7 @@ class ExprGen:
                 vals.append(["lit", None])
             return ["fn", "is_in", [g(f2)] + vals, {}]
         if o == "hanyall":
-            k = d(st.integers(1, 3))
+            k = d(st.sampled_from(NARY))
             return ["fn", self.pick(["hany", "hall"]), [g("bool") for _ in range(k)], {}]
         if o == "strpred":
             pat = ["lit", d(data.strs(False, plain=cfg.plain_str))[:3]]
@@ -280,7 +283,7 @@ class ExprGen:
         if o == "slice":
             return ["fn", "str.slice", [g("str"), ["lit", d(st.integers(0, 4))], ["lit", d(st.integers(0, 4))]], {}]
         if o == "case":
-            k = d(st.integers(1, 3))
+            k = d(st.sampled_from(NARY))
             branches = [[self._cond(g), self._branch_val(fam, g)] for _ in range(k)]
             dflt = None
             if self.chance(6):
@@ -298,7 +301,7 @@ class ExprGen:
             return ["case", branches, dflt]
         if o == "map":
             f2 = self.pick(["int", "str"])
-            k = d(st.integers(1, 3))
+            k = d(st.sampled_from(NARY))
             branches, used = [], set()
             for _ in range(k):
                 nk = d(st.integers(1, 2))
